@@ -10,6 +10,8 @@ CLAUSE = ("lockset analysis from the documented cross-thread entry points (threa
           "on every path of every function reached (no exit with a lock held, no unlock of an unheld mutex, no relock); client "
           "callbacks are never invoked with caption.mutex, chswcd_mutex or the raw decoder mutex held; the lock-order graph is "
           "acyclic; the snapshot copy of vbi_fetch_cc_page and the whole decode of vbi_raw_decode sit inside one lock region.")
+CLAUSE = CLAUSE + (" No update() of the displayed caption page is reachable after the call that announces the page (the announcement "
+                   "drops the mutex around the callback); vbi_raw_decoder_resize/_reset release the mutex they take on every exit.")
 NOT_DECIDED = ("that every fetched snapshot equals a state of the sequential execution beyond the atomicity of the lock region; "
                "operations the statement does not name (vbi_raw_decoder_resize/_reset, vbi_set_brightness, event (un)registration).")
 
@@ -299,12 +301,22 @@ def run(ctx, run):
     acc = cc_accesses(f)
     _single_region(run, f, eng, acc, CC_MUTEX, "snapshot copy and dirty reset of vbi_fetch_cc_page")
 
+    _publish_after_complete(ctx, run)
     # notes: the unnamed operations
     for n, u in NOTE_ENTRIES:
         g = P.func(n, u)
         if g is None:
             continue
         r2 = locks.analyse(ctx, [g], is_prot)
+        # pairing is claimed for these too: a mutex they keep blocks every named operation on the same object for ever
+        for ff, eid, msg, kind in r2.spec.errors:
+            k2 = "RF-LOCK:pairing:%s:%s" % (ff.name, kind)
+            if not any(v["key"] == k2 for v in run.violations):
+                run.violation("RF-LOCK", k2, "%s: %s (the raw decoder mutex stays locked: the next vbi_raw_decode() or service "
+                              "change on this decoder blocks for ever)" % (ff.name, msg),
+                              ex.loc(ff, eid) if eid is not None else "%s:%d" % (ff.file, ff.line), witness={"function": ff.name, "kind": kind})
+        if not r2.spec.errors:
+            run.holds("RF-LOCK", "RF-LOCK:pairing:%s" % n, "every exit of %s releases the mutex it took" % n, "%s:%d" % (g.file, g.line))
         for fkey, ctxs in r2.contexts.items():
             h = locks._func_by_key(P, fkey)
             for S, eng in ctxs.items():
@@ -340,3 +352,52 @@ def _single_region(run, f, eng, nodes, mutex, what):
     else:
         run.violation("RF-LOCK", key, "%s is not inside one lock region of %s (%d lock call(s)): the snapshot can be torn"
                       % (what, mutex, len(locks_)), "%s:%d" % (f.file, f.line))
+
+
+def _publish_after_complete(ctx, run):
+    """RF-DEP: the caption decoder announces a changed page with an event; caption_send_event()
+    drops the caption mutex around the client callback, so a fetch from another thread can run
+    right there.  Whatever a command changes on the displayed page is therefore written *before*
+    the announcing call (render, roll_up ...): no update() - the copy of the edited row into the
+    displayed page - is reachable after such a call within the same command.  Otherwise the
+    fetched snapshot shows a state (scrolled, bottom row not yet blanked) that no sequential
+    decode boundary has."""
+    P = ctx.prog
+    unit = "src/caption.c"
+    senders = {"caption_send_event"}
+    changed = True
+    while changed:
+        changed = False
+        for f in P.funcs:
+            if f.file != unit or f.name in senders:
+                continue
+            if any(e["k"] == "call" and e.get("callee") in senders for e in f.exprs):
+                # only leaf announcers: functions whose job is to mark dirty + send (no decoding of their own)
+                if f.name in ("render", "roll_up", "clear"):
+                    senders.add(f.name)
+                    changed = True
+    n = 0
+    for f in P.funcs:
+        if f.file != unit or f.name in senders:
+            continue
+        calls = [(b, i) for b, i in flow.all_events(f) if f.exprs[i]["k"] == "call" and f.exprs[i].get("callee") in senders - {"caption_send_event"}]
+        ups = [(b, i) for b, i in flow.all_events(f) if f.exprs[i]["k"] == "call" and f.exprs[i].get("callee") == "update"]
+        if not calls or not ups:
+            continue
+        run.touch(f)
+        pos = flow.elem_pos(f)
+        for cb, ci in calls:
+            n += 1
+            reach = flow.reach_from(f, cb)
+            later = [(ub, ui) for ub, ui in ups if (ub == cb and pos[ui][1] > pos[ci][1]) or (ub != cb and ub in reach and ub in
+                     {s for s in flow.reach_from(f, cb)} and any(s in flow.reach_from(f, x) for x, _ in f.edges(cb) for s in [ub]))]
+            key = "RF-DEP:%s:publish-after-complete@%d" % (f.name, f.exprs[ci]["line"])
+            if later:
+                ub, ui = later[0]
+                run.violation("RF-DEP", key, "%s(): `%s` (line %d) changes the displayed page after `%s` has announced it - the "
+                              "announcement drops the caption mutex around the callback, so vbi_fetch_cc_page() in another thread "
+                              "can return the page between the two: a snapshot no sequential execution ever shows"
+                              % (f.name, ex.pretty(f, ui)[:30], f.exprs[ui]["line"], ex.pretty(f, ci)[:40]), ex.loc(f, ci))
+            else:
+                run.holds("RF-DEP", key, "no update() of the displayed page follows `%s`" % ex.pretty(f, ci)[:40], ex.loc(f, ci))
+    run.floor("announcing calls in functions that also update the displayed page", n, 1)
